@@ -628,8 +628,13 @@ func (x *c19Run) peerHasAll(d *c19DirRun) string {
 		// (which removes it from the conn); it is registered before that happens.
 		ps = lookup()
 	}
+	if ps == nil && lerr != nil {
+		// The peer's conn is gone (the freeze variant's teardown has begun, or the
+		// connection died, which the delivery clauses report): nothing to look at.
+		return ""
+	}
 	if ps == nil {
-		return fmt.Sprintf("the peer does not know the stream (peer conn: %v, %v)", lerr, pc.lifetime.finalErr)
+		return "the peer does not know the stream"
 	}
 	ps.ingate.lock()
 	insize := ps.insize
